@@ -11,6 +11,7 @@ import (
 	"strings"
 	"sync"
 	"sync/atomic"
+	"syscall"
 	"time"
 
 	"github.com/Trendyol/go-dcp/config"
@@ -88,6 +89,10 @@ type SessSpec struct {
 	RollbackAlso map[int]int    `json:"rollback_also,omitempty"` // vb -> a second request index that is answered ROLLBACK(R) as well
 	// HoldConsAtStart: the consumer blocks inside its very first delivery (until "releasecons"); installed before Start()
 	HoldConsAtStart bool `json:"hold_cons_at_start,omitempty"`
+	// LingerMs: after the script (and the close) the session stays around that long before the log is taken
+	LingerMs int `json:"linger_ms,omitempty"`
+	// ReqFailFrom: ReqFail applies to the given request index and to every later request of that vBucket
+	ReqFailFrom bool `json:"req_fail_from,omitempty"`
 	// EndBehindReq: vb -> (request index, status): right behind the node's answer to that stream request the stream is ended
 	// with that status (the end reaches the client before its open call has returned)
 	EndBehindReq map[int][2]int `json:"end_behind_req,omitempty"`
@@ -491,7 +496,7 @@ func RunSession(spec *SessSpec) *Trace {
 				vbe, ste := r.VB, uint32(eb[1])
 				return &cbsim.Action{After: func() { env.Sim.EndStreams(vbe, ste) }}
 			}
-			if rf, ok := spec.ReqFail[int(r.VB)]; ok && rf[0] == nreq[int(r.VB)] {
+			if rf, ok := spec.ReqFail[int(r.VB)]; ok && (rf[0] == nreq[int(r.VB)] || (spec.ReqFailFrom && nreq[int(r.VB)] > rf[0])) {
 				return &cbsim.Action{HasStatus: true, Status: uint16(rf[1])}
 			}
 			if rh, ok := spec.ReqHold[int(r.VB)]; ok && rh == nreq[int(r.VB)] {
@@ -1111,6 +1116,9 @@ func RunSession(spec *SessSpec) *Trace {
 			w0 := s.writeCount()
 			full.Commit()
 			env.Log.Add(evlog.Rec{K: "ctl.absorbedcommit", VB: -1, A: uint64(s.writeCount() - w0)})
+		case "sigterm": // the process receives SIGTERM (the library listens for it once Start() runs)
+			env.Log.Add(evlog.Rec{K: "ctl.sigterm", VB: -1})
+			_ = syscall.Kill(os.Getpid(), syscall.SIGTERM)
 		case "commitstorm": // Commit() in a tight loop from another goroutine until "stopstorm" (saves racing with acknowledgements)
 			stop := make(chan struct{})
 			s.stormStop = stop
@@ -1343,6 +1351,9 @@ func RunSession(spec *SessSpec) *Trace {
 		if closed {
 			break
 		}
+	}
+	if spec.LingerMs > 0 {
+		time.Sleep(time.Duration(spec.LingerMs) * time.Millisecond) // whatever of the library is still alive shows in this time
 	}
 	for _, c := range s.stopReaders {
 		close(c)
